@@ -118,6 +118,8 @@ impl ReCompiler {
         // get min ('m' of {m,n}) number
         let mut number = String::new();
         while self.idx < self.len && self.pattern[self.idx].is_ascii_digit() {
+            #[cfg(regexml_verif)]
+            crate::verif::tick(26);
             number.push(self.pattern[self.idx]);
             self.idx += 1;
         }
@@ -164,6 +166,8 @@ impl ReCompiler {
         // get max number
         let mut number = String::new();
         while self.idx < self.len && self.pattern[self.idx].is_ascii_digit() {
+            #[cfg(regexml_verif)]
+            crate::verif::tick(26);
             number.push(self.pattern[self.idx]);
             self.idx += 1;
         }
@@ -322,6 +326,8 @@ impl ReCompiler {
                 }
                 let mut back_ref = (escape_char as usize) - ('0' as usize);
                 while self.idx < self.len {
+                    #[cfg(regexml_verif)]
+                    crate::verif::tick(27);
                     let c1 = self.pattern[self.idx].to_digit(10);
                     if let Some(c1) = c1 {
                         let back_ref2 = back_ref * 10 + (c1 as usize);
@@ -393,6 +399,8 @@ impl ReCompiler {
         }
 
         while self.idx < self.len && self.pattern[self.idx] != ']' {
+            #[cfg(regexml_verif)]
+            crate::verif::tick(28);
             let ch = self.pattern[self.idx];
             simple_char = None;
             match ch {
@@ -541,6 +549,8 @@ impl ReCompiler {
         let mut ub = Vec::new();
 
         while self.idx < self.len {
+            #[cfg(regexml_verif)]
+            crate::verif::tick(29);
             // is there a next char?
             if (self.idx + 1) < self.len {
                 let mut c = self.pattern[self.idx + 1];
@@ -828,6 +838,8 @@ impl ReCompiler {
         let mut quantifier_flags = vec![1];
         while self.idx < self.len && self.pattern[self.idx] != '|' && self.pattern[self.idx] != ')'
         {
+            #[cfg(regexml_verif)]
+            crate::verif::tick(30);
             // get new node
             quantifier_flags[0] = NODE_NORMAL;
             let op = self.piece(&quantifier_flags)?;
@@ -878,6 +890,8 @@ impl ReCompiler {
         branches.push(self.parse_branch()?);
         // loop through brnaches
         while self.idx < self.len && self.pattern[self.idx] == '|' {
+            #[cfg(regexml_verif)]
+            crate::verif::tick(31);
             self.idx += 1;
             branches.push(self.parse_branch()?);
         }
@@ -968,6 +982,8 @@ impl ReCompiler {
                 let mut nesting = 0;
                 let mut escaped = false;
                 for ch in self.pattern.iter() {
+                    #[cfg(regexml_verif)]
+                    crate::verif::tick(32);
                     match ch {
                         '\\' if !escaped => {
                             escaped = true;
@@ -1009,7 +1025,15 @@ impl ReCompiler {
                 }
                 return Err(Error::syntax("Unexpected input remains"));
             }
+            #[cfg(regexml_verif)]
+            let verif_unoptimized = operation.clone();
             let operation = operation.optimize(&self.re_flags);
+            #[cfg(regexml_verif)]
+            let operation = if self.re_flags.verif_opts & crate::verif::opts::NO_OPTIMIZE != 0 {
+                verif_unoptimized
+            } else {
+                operation
+            };
 
             let mut program = ReProgram::new(
                 self.pattern,
@@ -1017,6 +1041,26 @@ impl ReCompiler {
                 Some(self.capturing_open_paren_count),
                 self.re_flags.clone(),
             );
+            #[cfg(regexml_verif)]
+            {
+                use crate::verif::opts;
+                let o = self.re_flags.verif_opts;
+                if o & opts::NO_PREFIX != 0 {
+                    program.prefix = None;
+                }
+                if o & opts::NO_INITIAL_CLASS != 0 {
+                    program.initial_char_class = None;
+                }
+                if o & opts::NO_MIN_LENGTH != 0 {
+                    program.minimum_length = 0;
+                }
+                if o & opts::NO_PRECONDITIONS != 0 {
+                    program.preconditions.clear();
+                }
+                if o & opts::NO_HASBOL != 0 {
+                    program.optimization_flags &= !crate::re_program::OPT_HASBOL;
+                }
+            }
             if self.has_back_references {
                 program.optimization_flags |= OPT_HASBACKREFS;
             }
